@@ -84,7 +84,7 @@ pub struct CertAuth { pub resources: HashMap<ResourceClassName, ResourceClass> }
         # another class, is refused (otherwise one key would have certificates in two classes and F12-style revocations miss one)
         U.fn(CH, 'ChildDetails', 'verify_key_allowed', requires=[('km', km)], ensures=[
             ('allowed_iff_new_or_in_use_under_this_class', '''(r is Ok) <==> (!self.used_keys@.contains_key(*ki) || self.used_keys@[*ki] == UsedKeyState::InUse(*parent_rcn))''')]),
-        U.fn(CH, 'ChildDetails', 'issued', attrs=['#[verifier::loop_isolation(false)]'], requires=[('km', km)],
+        U.fn(CH, 'ChildDetails', 'issued', hash_loops=(0,), attrs=['#[verifier::loop_isolation(false)]'], requires=[('km', km)],
              ensures=[
                  ('exactly_the_keys_in_use_under_the_class', '''forall |k: KeyIdentifier| r@.contains(k) <==>
                         (self.used_keys@.contains_key(k) && self.used_keys@[k] == UsedKeyState::InUse(*parent_rcn))'''),
